@@ -1,933 +1,40 @@
-(* C12 on the second-generation Session model: the in-flight window holds both for the packets
-   WRITTEN on the current connection and for the packets HANDED to it, and the queue bound holds,
-   on every conforming history. *)
-From PahoV Require Import Base.Prelude Codec.Mid Codec.MidProofs Session2.Model Session2.Check
-  Session2.Lemmas Session2.Inv Session2.Statements.
-From Coq Require Import Sorting.Sorted.
+(* C12 on the second-generation Session model: the in-flight window (written and handed-over packets) and the
+   queue bound.  Operation-by-operation preservation for the two-mode operations is in LC12.v; lifted here
+   to the model's runs for histories without hard write failures (Calm.v).  The window invariant of the state
+   ([c12_no_idle_slot], [inflight <= max_inflight]) is part of [Inv] and holds for EVERY conforming history,
+   hard write failures included (Inv.v). *)
+From PahoV Require Import Base.Prelude Codec.Mid Codec.MidProofs Session2.Model Session2.Check Session2.Statements
+  Session2.Bridge Session2.Calm Session2.LLemmas Session2.LInv Session2.Inv Session2.LC12.
+From PahoV Require Session2.Legacy.
 
-(* ---------------------------------------------------------------- zin / zadd / zrem *)
-Lemma zin_notIn x l : zin x l = false -> ~ In x l.
+Lemma c12_gen_calm c sel : cfg_ok c = true -> view_ok sel -> forall ops,
+  conforming c ops = true -> no_fail ops = true -> c12_gen_ok sel c (optrace c ops) = true.
 Proof.
-  induction l as [|y l IH]; cbn [zin In]; intros H; [intros []|].
-  apply orb_false_iff in H as [H1 H2]. intros [H3|H3]; [lia | exact (IH H2 H3)].
-Qed.
-
-Lemma zrem_In y x l : In y (zrem x l) -> In y l /\ y <> x.
-Proof.
-  induction l as [|a l IH]; cbn [zrem]; [intros []|].
-  destruct (x =? a) eqn:E; cbn [In]; intros H.
-  - apply IH in H. destruct H. split; [right; assumption | assumption].
-  - destruct H as [H|H].
-    + subst y. split; [left; reflexivity | lia].
-    + apply IH in H. destruct H. split; [right; assumption | assumption].
-Qed.
-
-Lemma zrem_NoDup x l : NoDup l -> NoDup (zrem x l).
-Proof.
-  induction l as [|a l IH]; cbn [zrem]; intros H; [constructor|].
-  inversion H as [|? ? Hn Hd]; subst. destruct (x =? a); [apply IH; assumption|].
-  constructor; [|apply IH; assumption]. intros Hin. apply zrem_In in Hin. tauto.
-Qed.
-
-Lemma zrem_notin x l : ~ In x l -> zrem x l = l.
-Proof.
-  induction l as [|a l IH]; cbn [zrem In]; intros H; [reflexivity|].
-  destruct (x =? a) eqn:E; [exfalso; apply H; left; lia|].
-  f_equal. apply IH. intros H1. apply H. right. assumption.
-Qed.
-
-Lemma zrem_mid x l1 l2 : ~ In x l1 -> ~ In x l2 -> zrem x (l1 ++ x :: l2) = l1 ++ l2.
-Proof.
-  induction l1 as [|a l1 IH]; cbn [app zrem In]; intros H1 H2.
-  - rewrite Z.eqb_refl. apply zrem_notin. assumption.
-  - destruct (x =? a) eqn:E; [exfalso; apply H1; left; lia|].
-    f_equal. apply IH; [|assumption]. intros H. apply H1. right. assumption.
-Qed.
-
-Lemma zadd_NoDup x l : NoDup l -> NoDup (zadd x l).
-Proof.
-  intros H. unfold zadd. destruct (zin x l) eqn:E; [assumption|].
-  apply NoDup_app_snoc; [assumption | apply zin_notIn; assumption].
-Qed.
-
-Lemma zadd_incl x l T : incl l T -> In x T -> incl (zadd x l) T.
-Proof.
-  intros H Hx. unfold zadd. destruct (zin x l); [assumption|].
-  apply incl_app; [assumption|]. intros y [Hy|[]]. subst y. assumption.
-Qed.
-
-(* ---------------------------------------------------------------- generic list facts *)
-Lemma SSorted_NoDup l : StronglySorted Z.lt l -> NoDup l.
-Proof.
-  induction l as [|a l IH]; intros H; [constructor|].
-  inversion H as [|? ? Hs Hf]; subst. constructor; [|apply IH; assumption].
-  intros Hin. pose proof (proj1 (Forall_forall _ _) Hf a Hin). lia.
-Qed.
-
-Lemma filter_len {A} (f : A -> bool) l : (length (filter f l) <= length l)%nat.
-Proof. induction l as [|x l IH]; cbn [filter length]; [lia|]. destruct (f x); cbn [length]; lia. Qed.
-
-Lemma filter_none {A} (f : A -> bool) l : Forall (fun x => f x = false) l -> filter f l = [].
-Proof.
-  induction l as [|x l IH]; intros H; cbn [filter]; [reflexivity|].
-  inversion H as [|? ? Hx Hl]; subst. rewrite Hx. apply IH. assumption.
-Qed.
-
-(* tags of the messages in a wait state *)
-Definition wt (l : list omsg) : list Z := map o_tag (filter is_wait l).
-
-Lemma wt_app l1 l2 : wt (l1 ++ l2) = wt l1 ++ wt l2.
-Proof. unfold wt. rewrite filter_app, map_app. reflexivity. Qed.
-
-Lemma wt_cons x l : wt (x :: l) = if is_wait x then o_tag x :: wt l else wt l.
-Proof. unfold wt. cbn [filter]. destruct (is_wait x); reflexivity. Qed.
-
-Lemma wt_In_tags t l : In t (wt l) -> In t (tags l).
-Proof.
-  unfold wt, tags. rewrite !in_map_iff. intros (m & E & Hin). apply filter_In in Hin.
-  exists m. tauto.
-Qed.
-
-Lemma wt_NoDup_of l : NoDup (tags l) -> NoDup (wt l).
-Proof.
-  induction l as [|a l IH]; intros H; [constructor|].
-  unfold tags in H. cbn [map] in H. inversion H as [|? ? Hn Hd]; subst.
-  rewrite wt_cons. destruct (is_wait a); [|apply IH; assumption].
-  constructor; [|apply IH; assumption]. intros Hin. apply Hn. apply wt_In_tags. assumption.
-Qed.
-
-Lemma queued_notwait m : is_queued m = true -> is_wait m = false.
-Proof. unfold is_queued, is_wait. destruct (o_st m); try discriminate; reflexivity. Qed.
-
-Lemma publish_notwait m : o_st m = MsPublish -> is_wait m = false.
-Proof. unfold is_wait. intros ->. reflexivity. Qed.
-
-(* ---------------------------------------------------------------- the window checker, for any view *)
-(* the tags of the window-relevant packets an event hands over or writes *)
-Definition evtag (e : event) : list Z :=
-  match e with
-  | Tx _ p | Handed _ p => match ptag p with Some t => [t] | None => [] end
-  | _ => []
-  end.
-
-Definition view_ok (sel : event -> option pkt) : Prop :=
-  forall e p t, sel e = Some p -> ptag p = Some t -> In t (evtag e).
-
-Lemma view_tx : view_ok tx_sel.
-Proof. intros e p t H1 H2. destruct e; try discriminate. inversion H1; subst. cbn [evtag]. rewrite H2. left. reflexivity. Qed.
-Lemma view_handed : view_ok handed_sel.
-Proof. intros e p t H1 H2. destruct e; try discriminate. inversion H1; subst. cbn [evtag]. rewrite H2. left. reflexivity. Qed.
-
-Definition P12 (T : list Z) (k : k12) : Prop :=
-  k12_ok k = true /\ NoDup (k12_un k) /\ incl (k12_un k) T.
-
-Lemma P12_zadd n T k tag : (n = 0 \/ Z.of_nat (length T) <= n) -> In tag T -> P12 T k ->
-  P12 T (mkK12 (zadd tag (k12_un k)) (k12_ok k && ((n =? 0) || (zlen (zadd tag (k12_un k)) <=? n)))).
-Proof.
-  intros Hn Hin (Hok & Hnd & Hincl). unfold P12. cbn [k12_un k12_ok].
-  pose proof (zadd_NoDup tag _ Hnd) as Hnd'. pose proof (zadd_incl tag _ T Hincl Hin) as Hincl'.
-  split; [|split; assumption].
-  rewrite Hok. cbn [andb]. pose proof (NoDup_incl_length Hnd' Hincl') as Hlen. unfold zlen. lia.
-Qed.
-
-Lemma fold_cons {A B} (f : A -> B -> A) e l k : fold_left f (e :: l) k = fold_left f l (f k e).
-Proof. reflexivity. Qed.
-
-Section View.
-Variable sel : event -> option pkt.
-Hypothesis Hsel : view_ok sel.
-
-Lemma k12_ev_P n T k e : (n = 0 \/ Z.of_nat (length T) <= n) ->
-  (forall t, In t (evtag e) -> In t T) -> P12 T k -> P12 T (k12_ev sel n k e).
-Proof.
-  intros Hn Htx HP.
-  assert (Hsel' : P12 T (match sel e with
-                         | Some p => match ptag p with
-                                     | Some tag => let u := zadd tag (k12_un k) in
-                                                   mkK12 u (k12_ok k && ((n =? 0) || (zlen u <=? n)))
-                                     | None => k end
-                         | None => k end)).
-  { destruct (sel e) as [p|] eqn:Es; [|exact HP]. destruct (ptag p) as [tag|] eqn:Ep; [|exact HP].
-    cbv zeta. apply P12_zadd; [assumption | apply Htx; eapply Hsel; eassumption | assumption]. }
-  destruct e; try exact Hsel'.
-  - destruct HP as (Hok & Hnd & Hincl). unfold P12. cbn [k12_ev k12_un k12_ok].
-    split; [assumption|]. split; [apply zrem_NoDup; assumption|].
-    intros y Hy. apply zrem_In in Hy. apply Hincl. tauto.
-  - destruct HP as (Hok & Hnd & Hincl). unfold P12. cbn [k12_ev k12_un k12_ok].
-    split; [assumption|]. split; [constructor | apply incl_nil_l].
-Qed.
-
-Lemma k12_fold_P n T : (n = 0 \/ Z.of_nat (length T) <= n) -> forall evs k,
-  (forall e t, In e evs -> In t (evtag e) -> In t T) -> P12 T k ->
-  P12 T (fold_left (k12_ev sel n) evs k).
-Proof.
-  intros Hn. induction evs as [|e evs IH]; intros k Htx HP; cbn [fold_left]; [exact HP|].
-  apply IH.
-  - intros e' t He Ht. apply (Htx e' t); [right; assumption | assumption].
-  - apply k12_ev_P; [assumption | | assumption]. intros t Ht. apply (Htx e t); [left; reflexivity | assumption].
-Qed.
-
-(* events without window-relevant packets and without completion / new socket *)
-Lemma k12_fold_plain n : forall evs k,
-  Forall (fun e => evtag e = [] /\ match e with SockOpened _ | CbPublish _ _ => False | _ => True end) evs ->
-  fold_left (k12_ev sel n) evs k = k.
-Proof.
-  induction evs as [|e evs IH]; intros k H; [reflexivity|]. inversion H as [|? ? [He1 He2] H']; subst.
-  cbn [fold_left]. rewrite <- (IH k H') at 2. f_equal.
-  assert (Hs : match sel e with
-               | Some p => match ptag p with
-                           | Some tag => let u := zadd tag (k12_un k) in
-                                         mkK12 u (k12_ok k && ((n =? 0) || (zlen u <=? n)))
-                           | None => k end
-               | None => k end = k).
-  { destruct (sel e) as [p|] eqn:Es; [|reflexivity]. destruct (ptag p) as [tag|] eqn:Ep; [|reflexivity].
-    pose proof (Hsel e p tag Es Ep) as Hin. rewrite He1 in Hin. destruct Hin. }
-  destruct e; try contradiction; exact Hs.
-Qed.
-
-End View.
-
-(* ---------------------------------------------------------------- which tags an operation hands over / writes *)
-Lemma written_notag x e : In e (written_evs x) -> evtag e = [].
-Proof.
-  unfold written_evs. destruct (q_pkt x) as [|m q d t| | | |]; try (intros []).
-  destruct (q =? 0); [|intros []]. intros [<-|[<-|[]]]; reflexivity.
-Qed.
-
-Lemma flush_evs_tags cn : forall q e t, In e (flush_evs cn q) -> In t (evtag e) ->
-  exists x, In x q /\ ptag (q_pkt x) = Some t.
-Proof.
-  induction q as [|x q IH]; intros e t He Ht; [destruct He|]. cbn [flush_evs] in He.
-  destruct He as [<-|He].
-  - cbn [evtag] in Ht. destruct (ptag (q_pkt x)) as [t'|] eqn:E; [|destruct Ht].
-    destruct Ht as [<-|[]]. exists x. split; [left; reflexivity | exact E].
-  - apply in_app_or in He as [He|He].
-    + rewrite (written_notag x e He) in Ht. destruct Ht.
-    + destruct (IH e t He Ht) as (y & Hy & E). exists y. split; [right; exact Hy | exact E].
-Qed.
-
-Lemma hand_all_tags cn can q H : (can = true -> q = []) ->
-  forall e t, In e (snd (hand_all cn can q H)) -> In t (evtag e) ->
-  exists x, In x H /\ ptag (q_pkt x) = Some t.
-Proof.
-  intros Hq e t He Ht. destruct can.
-  - rewrite (Hq eq_refl), hand_all_can in He. cbn [snd] in He. apply in_flat_map in He as (x & Hx & He).
-    destruct He as [<-|He].
-    + cbn [evtag] in Ht. destruct (ptag (q_pkt x)) as [t'|] eqn:E; [|destruct Ht].
-      destruct Ht as [<-|[]]. exists x. split; assumption.
-    + destruct (flush_evs_tags cn [x] e t He Ht) as (y & [<-|[]] & E). exists x. split; assumption.
-  - rewrite hand_all_blocked in He. cbn [snd] in He. apply in_map_iff in He as (x & <- & Hx).
-    cbn [evtag] in Ht. destruct (ptag (q_pkt x)) as [t'|] eqn:E; [|destruct Ht].
-    destruct Ht as [<-|[]]. exists x. split; assumption.
-Qed.
-
-Lemma send_hand_all s x : send s x = (with_q s (fst (hand_all (conn s) (can_write s) (outq s) [x])),
-                                       snd (hand_all (conn s) (can_write s) (outq s) [x])).
-Proof.
-  unfold send. cbn [hand_all]. destruct (pq (conn s) (can_write s) (outq s) x) as [q' ev].
-  rewrite app_nil_r. reflexivity.
-Qed.
-
-Lemma send_tags s x : (can_write s = true -> outq s = []) ->
-  forall e t, In e (snd (send s x)) -> In t (evtag e) -> ptag (q_pkt x) = Some t.
-Proof.
-  intros Hq e t He Ht. rewrite send_hand_all in He. cbn [snd] in He.
-  destruct (hand_all_tags _ _ _ _ Hq e t He Ht) as (y & [<-|[]] & E). exact E.
-Qed.
-
-Lemma ptag_pub m t : ptag (pub_pkt m) = Some t -> t = o_tag m.
-Proof. unfold pub_pkt, ptag. destruct (o_qos m =? 0); [discriminate|]. intros H; inversion H; reflexivity. Qed.
-
-Lemma qpkt_ok_wt l x t : qpkt_ok l x -> ptag (q_pkt x) = Some t -> In t (wt l).
-Proof.
-  unfold qpkt_ok, ptag. destruct (q_pkt x) as [|mid q dup tag|mid tag| | |]; try discriminate.
-  - destruct (q =? 0) eqn:E; [discriminate|]. intros H Ht. injection Ht as <-.
-    destruct (H ltac:(lia)) as (m & Hin & H1 & H2 & H3 & H4 & H5).
-    unfold wt. rewrite <- H2. apply in_map. apply filter_In. split; [exact Hin | eapply wait_of_wait; exact H5].
-  - intros (m & Hin & H1 & H2 & H3) Ht. injection Ht as <-.
-    unfold wt. rewrite <- H2. apply in_map. apply filter_In. split; [exact Hin | unfold is_wait; rewrite H3; reflexivity].
-Qed.
-
-Lemma wt_In l m : In m l -> is_wait m = true -> In (o_tag m) (wt l).
-Proof. intros H1 H2. unfold wt. apply in_map. apply filter_In. split; assumption. Qed.
-
-Lemma wt_In_inv l t : In t (wt l) -> exists m, In m l /\ is_wait m = true /\ o_tag m = t.
-Proof. unfold wt. intros H. apply in_map_iff in H as (m & E & Hm). apply filter_In in Hm as [H1 H2]. exists m. tauto. Qed.
-
-Lemma upd_wt mid : forall l m, find_mid mid l = Some m ->
-  incl (wt l) (wt (update_mid mid (fun m0 => set_st m0 MsWaitPubcomp) l)) /\
-  In (o_tag m) (wt (update_mid mid (fun m0 => set_st m0 MsWaitPubcomp) l)).
-Proof.
-  induction l as [|x l IH]; intros m; cbn [find_mid update_mid]; [discriminate|].
-  destruct (o_mid x =? mid); intros H.
-  - inversion H; subst x. rewrite !wt_cons. cbn [is_wait set_st o_st o_tag].
-    split; [|left; reflexivity]. destruct (is_wait m); [apply incl_refl | apply incl_tl, incl_refl].
-  - destruct (IH m H) as [H1 H2]. rewrite !wt_cons. destruct (is_wait x).
-    + split; [apply incl_cons; [left; reflexivity | apply incl_tl; assumption] | right; assumption].
-    + split; assumption.
-Qed.
-
-Lemma cl_pk_wt m x t : In x (cl_pk m) -> ptag (q_pkt x) = Some t -> t = o_tag m /\ is_wait (cl1 m) = true.
-Proof.
-  unfold cl_pk, cl1. destruct (o_st m); try (intros H; exact (match H with end)).
-  - intros [<-|[]] Ht. cbn [q_pkt] in Ht. split; [apply ptag_pub; exact Ht|].
-    unfold is_wait, wait_of. cbn. destruct (o_qos m =? 1); reflexivity.
-  - destruct (o_qos m =? 2); [|intros []]. intros [<-|[]] Ht. cbn in Ht. inversion Ht. split; reflexivity.
-Qed.
-
-(* ================================================================ per-configuration part *)
-Section C12.
-Variable c : cfg.
-Hypothesis Hcfg : cfg_ok c = true.
-Variable sel : event -> option pkt.
-Hypothesis Hsel : view_ok sel.
-
-Lemma wt_NoDup s : Inv c s -> NoDup (wt (out s)).
-Proof. intros I. apply wt_NoDup_of. apply SSorted_NoDup. exact (inv_sorted _ _ I). Qed.
-
-Lemma wt_bound s : Inv c s -> c_max c = 0 \/ Z.of_nat (length (wt (out s))) <= c_max c.
-Proof.
-  intros I. destruct (inv_shape _ _ I) as (C & U & Q & [So Si SC SU SQ Sm Sf Ss Se]).
-  pose proof (max_nonneg c Hcfg) as Hmax.
-  destruct (Z.eq_dec (c_max c) 0) as [E|E]; [left; assumption|right].
-  specialize (Sm ltac:(lia)).
-  unfold wt. rewrite map_length, So, !filter_app.
-  rewrite (filter_none is_wait U), (filter_none is_wait Q).
-  - rewrite app_nil_r. pose proof (filter_len is_wait C). lia.
-  - eapply Forall_impl; [|exact SQ]. cbn. intros a. apply queued_notwait.
-  - eapply Forall_impl; [|exact SU]. cbn. intros a. apply publish_notwait.
-Qed.
-
-Definition R12 (s : sess) (k : k12) : Prop :=
-  k12_ok k = true /\ NoDup (k12_un k) /\ (sock s = true -> incl (k12_un k) (wt (out s))).
-
-Lemma R12_mono s s' k : R12 s k ->
-  (sock s' = true -> sock s = true /\ incl (wt (out s)) (wt (out s'))) -> R12 s' k.
-Proof.
-  intros (Hok & Hnd & Hun) H. split; [assumption|]. split; [assumption|].
-  intros Hs'. destruct (H Hs') as [Hs Hi]. eapply incl_tran; [apply Hun; assumption | assumption].
-Qed.
-
-Lemma P12_R12 s k : P12 (wt (out s)) k -> R12 s k.
-Proof. intros (H1 & H2 & H3). split; [assumption|]. split; [assumption|]. intros _. assumption. Qed.
-
-Lemma win_on s s' evs k : Inv c s' -> sock s = true -> incl (wt (out s)) (wt (out s')) ->
-  (forall e t, In e evs -> In t (evtag e) -> In t (wt (out s'))) ->
-  R12 s k -> R12 s' (fold_left (k12_ev sel (c_max c)) evs k).
-Proof.
-  intros I' Hs Hincl Htx (Hok & Hnd & Hun). apply P12_R12.
-  apply (k12_fold_P sel Hsel); [apply wt_bound; assumption | assumption |].
-  split; [assumption|]. split; [assumption|].
-  eapply incl_tran; [apply Hun; assumption | assumption].
-Qed.
-
-(* an operation without a socket, or one that hands over / writes nothing window-relevant and completes nothing *)
-Lemma win_plain s s' evs k :
-  Forall (fun e => evtag e = [] /\ match e with SockOpened _ | CbPublish _ _ => False | _ => True end) evs ->
-  (sock s' = true -> sock s = true /\ incl (wt (out s)) (wt (out s'))) ->
-  R12 s k -> R12 s' (fold_left (k12_ev sel (c_max c)) evs k).
-Proof. intros He Hm HR. rewrite (k12_fold_plain sel Hsel). - eapply R12_mono; eassumption. - exact He. Qed.
-
-Lemma idle_ext (s s1 : sess) : sock s1 = sock s -> blocked s1 = blocked s -> outq s1 = outq s ->
-  (can_write s = true -> outq s = []) -> (can_write s1 = true -> outq s1 = []).
-Proof. unfold can_write. intros -> -> ->. exact (fun H => H). Qed.
-
-Lemma send_events_notag s x e : (can_write s = true -> outq s = []) -> ptag (q_pkt x) = None ->
-  In e (snd (send s x)) -> evtag e = [].
-Proof.
-  intros Hq Hx He. destruct (evtag e) as [|t l] eqn:E; [reflexivity|]. exfalso.
-  pose proof (send_tags s x Hq e t He) as H. rewrite E in H. specialize (H (or_introl eq_refl)). congruence.
-Qed.
-
-Lemma win_publish s q k : Inv c s -> R12 s k ->
-  Inv c (fst (do_publish c s q)) ->
-  R12 (fst (do_publish c s q)) (fold_left (k12_ev sel (c_max c)) (snd (do_publish c s q)) k).
-Proof.
-  intros I HR. pose proof (inv_qidle _ _ I) as Hi. unfold do_publish. cbv zeta.
-  assert (Hret : forall s' tag mid rc, (sock s' = true -> sock s = true /\ incl (wt (out s)) (wt (out s'))) ->
-            R12 s' (fold_left (k12_ev sel (c_max c)) [Ret tag mid q rc] k)).
-  { intros s' tag mid rc Hm. apply (win_plain s); [|exact Hm|exact HR]. constructor; [split; [reflexivity|exact Logic.I]|constructor]. }
-  destruct (q =? 0) eqn:Eq0.
-  { destruct (sock s) eqn:Hs; [|intros _; apply Hret; cbn [sock]; discriminate].
-    set (s1 := mkS _ _ _ _ _ _ _ _ _ _ _). set (x := mkQ _ _).
-    pose proof (send_events_notag s1 x) as Hn. pose proof (send_out s1 x) as Ho. pose proof (send_fst s1 x) as Hf.
-    destruct (send s1 x) as [s2 ev]. cbn [fst snd] in *. intros I'.
-    eapply win_on; [exact I' | exact Hs | rewrite Ho; apply incl_refl | | exact HR].
-    intros e t He Ht. exfalso. apply in_app_or in He as [He|[<-|[]]]; [|destruct Ht].
-    assert (Hi1 : can_write s1 = true -> outq s1 = []) by (apply (idle_ext s); [cbn; congruence | reflexivity | reflexivity | exact Hi]).
-    rewrite (Hn e Hi1 eq_refl He) in Ht. destruct Ht. }
-  destruct ((c_maxq c >? 0) && (Z.of_nat (length (out s)) >=? c_maxq c)).
-  { intros _. apply Hret. cbn [sock out]. intros H; split; [exact H | apply incl_refl]. }
-  destruct (has_mid (mid_next (last_mid s)) (out s)).
-  { intros _. apply Hret. cbn [sock out]. intros H; split; [exact H | apply incl_refl]. }
-  destruct (window_free c (inflight s)).
-  - destruct (sock s) eqn:Hs.
-    + set (s1 := with_out _ _ _). set (x := mkQ _ _).
-      assert (Hi1 : can_write s1 = true -> outq s1 = []) by (apply (idle_ext s); [cbn; congruence | reflexivity | reflexivity | exact Hi]).
-      pose proof (send_tags s1 x Hi1) as Hn. pose proof (send_out s1 x) as Ho.
-      destruct (send s1 x) as [s2 ev]. cbn [fst snd] in *. intros I'.
-      eapply win_on; [exact I' | exact Hs | rewrite Ho; cbn [out with_out s1]; rewrite wt_app; apply incl_appl, incl_refl | | exact HR].
-      intros e t He Ht. apply in_app_or in He as [He|[<-|[]]]; [|destruct Ht].
-      specialize (Hn e t He Ht). cbn [q_pkt x ptag] in Hn. rewrite Eq0 in Hn. inversion Hn; subst t.
-      rewrite Ho. cbn [out with_out s1]. rewrite wt_app. apply in_or_app. right.
-      unfold wt, is_wait, wait_of. cbn. destruct (q =? 1); left; reflexivity.
-    + intros _. apply Hret. cbn [sock with_out]. discriminate.
-  - intros _. apply Hret. cbn [fst sock out with_out]. intros H; split; [exact H|]. rewrite wt_app. apply incl_appl, incl_refl.
-Qed.
-
-Lemma lost_notag q : Forall (fun e => evtag e = [] /\ match e with SockOpened _ | CbPublish _ _ => False | _ => True end)
-                            (flat_map lost_evs q).
-Proof.
-  induction q as [|x q IH]; [constructor|]. cbn [flat_map]. apply Forall_app. split; [|exact IH].
-  unfold lost_evs. destruct (q_pkt x) as [|m qs d t| | | |]; try constructor.
-  destruct ((qs =? 0) && q_info x); repeat constructor.
-Qed.
-
-Lemma win_reconnect s ok k : R12 s k ->
-  R12 (fst (do_reconnect c s ok)) (fold_left (k12_ev sel (c_max c)) (snd (do_reconnect c s ok)) k).
-Proof.
-  intros HR. unfold do_reconnect. destruct (reset_out_list c (clean_now c s) 0 (out s)) as [o n].
-  destruct ok; cbn [fst snd].
-  - change (Reconn :: flat_map lost_evs (outq s) ++ [SockOpened (conn s + 1); Handed (conn s + 1) PConnect; Tx (conn s + 1) PConnect])
-      with ((Reconn :: flat_map lost_evs (outq s)) ++ [SockOpened (conn s + 1); Handed (conn s + 1) PConnect; Tx (conn s + 1) PConnect]).
-    rewrite fold_left_app. rewrite (k12_fold_plain sel Hsel _ (Reconn :: flat_map lost_evs (outq s)))
-      by (constructor; [split; [reflexivity|exact I] | apply lost_notag]).
-    cbn [fold_left]. change (k12_ev sel (c_max c) k (SockOpened (conn s + 1))) with (mkK12 [] (k12_ok k)).
-    change (k12_ev sel (c_max c) (k12_ev sel (c_max c) (mkK12 [] (k12_ok k)) (Handed (conn s + 1) PConnect)) (Tx (conn s + 1) PConnect))
-      with (fold_left (k12_ev sel (c_max c)) [Handed (conn s + 1) PConnect; Tx (conn s + 1) PConnect] (mkK12 [] (k12_ok k))).
-    rewrite (k12_fold_plain sel Hsel) by (repeat constructor).
-    destruct HR as (Hok & _ & _). split; [assumption|]. cbn [k12_un]. split; [constructor|].
-    intros _. apply incl_nil_l.
-  - change (Reconn :: flat_map lost_evs (outq s) ++ [Raised]) with ((Reconn :: flat_map lost_evs (outq s)) ++ [Raised]).
-    apply (win_plain s); [|cbn [sock]; discriminate | exact HR].
-    apply Forall_app. split; [constructor; [split; [reflexivity|exact I] | apply lost_notag] | repeat constructor].
-Qed.
-
-(* the final acknowledgement of a stored message *)
-Lemma win_on_publish s m p k : Inv c s -> sock s = true -> cack s = true -> In m (out s) -> is_wait m = true ->
-  R12 s k -> Inv c (fst (do_on_publish c s m)) ->
-  R12 (fst (do_on_publish c s m)) (fold_left (k12_ev sel (c_max c)) (Inp p :: snd (do_on_publish c s m)) k).
-Proof.
-  intros I Hs Hck Hin Hw (Hok & Hnd & Hun).
-  destruct (on_publish_char c Hcfg s m (inv_m _ _ I) Hs Hck Hin Hw)
-    as (C1 & C2 & Q & j & n & So & Se' & SQ & Hj & Hn & Hle & Hfull & E).
-  rewrite E. cbn [fst snd]. clear E. intros I'.
-  change (Inp p :: CbPublish (o_mid m) (o_tag m) :: Published (o_tag m) ::
-          snd (hand_all (conn s) (can_write s) (outq s) (map rel_pk (firstn j Q))))
-    with ([Inp p] ++ CbPublish (o_mid m) (o_tag m) :: Published (o_tag m) ::
-          snd (hand_all (conn s) (can_write s) (outq s) (map rel_pk (firstn j Q)))).
-  rewrite fold_left_app, (k12_fold_plain sel Hsel _ [Inp p]) by (repeat constructor).
-  rewrite fold_cons.
-  change (k12_ev sel (c_max c) k (CbPublish (o_mid m) (o_tag m))) with (mkK12 (zrem (o_tag m) (k12_un k)) (k12_ok k)).
-  set (o' := (C1 ++ C2) ++ map rel1 (firstn j Q) ++ skipn j Q) in *.
-  apply P12_R12. cbn [out with_q with_out].
-  apply (k12_fold_P sel Hsel); [apply (wt_bound _ I') | |].
-  - intros e t [<-|He] Ht; [destruct Ht|].
-    destruct (hand_all_tags _ _ _ _ (inv_qidle _ _ I) e t He Ht) as (x & Hx & Ex).
-    apply in_map_iff in Hx as (y & <- & Hy). cbn [rel_pk q_pkt] in Ex. apply ptag_pub in Ex. subst t.
-    unfold o'. rewrite !wt_app. apply in_or_app. right. apply in_or_app. left.
-    rewrite <- (rel1_tag y). apply wt_In; [apply in_map; exact Hy | apply rel1_wait].
-  - split; [assumption|]. cbn [k12_un]. split; [apply zrem_NoDup; assumption|].
-    intros y Hy. apply zrem_In in Hy as [Hy1 Hy2]. apply (Hun Hs) in Hy1. rewrite So in Hy1.
-    rewrite !wt_app in Hy1. rewrite wt_cons, Hw in Hy1. unfold o'. rewrite !wt_app.
-    apply in_app_or in Hy1 as [Hy1|Hy1].
-    + apply in_or_app. left. apply in_app_or in Hy1 as [Hy1|[Hy1|Hy1]].
-      * apply in_or_app. left. exact Hy1.
-      * congruence.
-      * apply in_or_app. right. exact Hy1.
-    + exfalso. unfold wt in Hy1. rewrite (filter_none is_wait Q) in Hy1; [destruct Hy1|].
-      eapply Forall_impl; [|exact SQ]. cbn. intros a. apply queued_notwait.
-Qed.
-
-Lemma win_rx s p r k : Inv c s -> R12 s k -> conf_op c s (ORx p r) = true ->
-  Inv c (fst (do_rx c s p r)) ->
-  R12 (fst (do_rx c s p r)) (fold_left (k12_ev sel (c_max c)) (snd (do_rx c s p r)) k).
-Proof.
-  intros I HR Hconf. cbn [conf_op] in Hconf. pose proof (inv_qidle _ _ I) as Hi.
-  destruct (sock s) eqn:Hs; cbn [negb] in *; [|unfold do_rx; rewrite Hs; cbn [negb fst snd fold_left]; intros _; exact HR].
-  (* replies: nothing window-relevant *)
-  assert (Hreply : forall s1 x pre, sock s1 = sock s -> out s1 = out s -> outq s1 = outq s -> can_write s1 = can_write s ->
-            ptag (q_pkt x) = None ->
-            Forall (fun e => evtag e = [] /\ match e with SockOpened _ | CbPublish _ _ => False | _ => True end) pre ->
-            R12 (fst (let (s2, ev2) := send s1 x in (s2, pre ++ ev2)))
-                (fold_left (k12_ev sel (c_max c)) (snd (let (s2, ev2) := send s1 x in (s2, pre ++ ev2))) k)).
-  { intros s1 x pre E1 E2 E3 E4 Hx Hpre.
-    assert (Hi1 : can_write s1 = true -> outq s1 = []) by (rewrite E3, E4; exact Hi).
-    pose proof (send_events_notag s1 x) as Hn. pose proof (send_out s1 x) as Ho. pose proof (send_fst s1 x) as Hf.
-    destruct (send s1 x) as [s2 ev]. cbn [fst snd] in *.
-    rewrite fold_left_app, (k12_fold_plain sel Hsel _ pre k Hpre).
-    apply P12_R12. destruct HR as (Hok & Hnd & Hun).
-    assert (Hb : c_max c = 0 \/ Z.of_nat (length (wt (out s2))) <= c_max c).
-    { rewrite Ho, E2. apply (wt_bound _ I). }
-    apply (k12_fold_P sel Hsel _ _ Hb).
-    - intros e t He Ht. rewrite (Hn e Hi1 Hx He) in Ht. destruct Ht.
-    - split; [assumption|]. split; [assumption|]. rewrite Ho, E2. apply Hun. exact Hs. }
-  assert (Hsame : forall s' evs, sock s' = sock s -> out s' = out s ->
-            Forall (fun e => evtag e = [] /\ match e with SockOpened _ | CbPublish _ _ => False | _ => True end) evs ->
-            R12 s' (fold_left (k12_ev sel (c_max c)) evs k)).
-  { intros s' evs E1 E2 He. apply (win_plain s); [exact He| |exact HR]. rewrite E1, E2. intros H; split; [congruence | apply incl_refl]. }
-  destruct p as [rc|mid|mid|mid|mid|q mid tag].
-  - (* CONNACK *)
-    destruct (rc =? 0) eqn:Erc.
-    + assert (rc = 0) by lia. subst rc.
-      destruct (connack_char c s r I Hs) as (C & Q & So & Sh & E). rewrite E. cbn [fst snd]. clear E. intros I'.
-      assert (Hincl : incl (wt (out s)) (wt (map cl1 C ++ Q))).
-      { rewrite So. intros t Ht. apply wt_In_inv in Ht as (m & Hm & Hw & <-).
-        apply in_app_or in Hm as [Hm|Hm].
-        - rewrite <- (cl1_wait_id m Hw). apply wt_In; [apply in_or_app; left; apply in_map; exact Hm|].
-          rewrite (cl1_wait_id m Hw). exact Hw.
-        - apply wt_In; [apply in_or_app; right; exact Hm | exact Hw]. }
-      eapply win_on; [exact I' | exact Hs | exact Hincl | | exact HR].
-      cbn [out with_q with_out]. intros e t [<-|He] Ht; [destruct Ht|].
-      destruct (hand_all_tags _ _ _ _ Hi e t He Ht) as (x & Hx & Ex).
-      apply in_flat_map in Hx as (m & Hm & Hx). destruct (cl_pk_wt m x t Hx Ex) as [-> Hw].
-      rewrite <- (cl1_tag m). apply wt_In; [apply in_or_app; left; apply in_map; exact Hm | exact Hw].
-    + unfold do_rx. rewrite Hs. cbn [negb]. rewrite Erc. cbn [fst snd]. intros _.
-      apply (win_plain s); [repeat constructor | cbn [sock with_sock]; discriminate | exact HR].
-  - (* PUBACK *)
-    unfold do_rx. rewrite Hs. cbn [negb].
-    destruct (find_mid mid (out s)) as [m|] eqn:Ef; [|intros _; apply Hsame; try reflexivity; repeat constructor].
-    pose proof (find_mid_In _ _ _ Ef) as [Hin Hmid]. subst mid.
-    apply andb_true_iff in Hconf as [Hck Hconf]. apply andb_true_iff in Hconf as [Hconf _].
-    apply andb_true_iff in Hconf as [_ Hst].
-    assert (Hw : is_wait m = true) by (unfold is_wait; destruct (o_st m); try discriminate; reflexivity).
-    pose proof (win_on_publish s m (IPuback (o_mid m)) k I Hs Hck Hin Hw HR) as H.
-    destruct (do_on_publish c s m) as [s' ev]. cbn [fst snd] in *. exact H.
-  - (* PUBREC *)
-    unfold do_rx. rewrite Hs. cbn [negb].
-    destruct (find_mid mid (out s)) as [m|] eqn:Ef; [|intros _; apply Hsame; try reflexivity; repeat constructor].
-    destruct (upd_wt mid (out s) m Ef) as [H1 H2].
-    set (s1 := with_out s _ _). set (x := mkQ _ _).
-    pose proof (send_tags s1 x Hi) as Hn. pose proof (send_out s1 x) as Ho.
-    destruct (send s1 x) as [s2 ev]. cbn [fst snd] in *. intros I'.
-    eapply win_on; [exact I' | exact Hs | rewrite Ho; exact H1 | | exact HR].
-    intros e t [<-|He] Ht; [destruct Ht|]. specialize (Hn e t He Ht). cbn in Hn. inversion Hn; subst t.
-    rewrite Ho. exact H2.
-  - (* PUBCOMP *)
-    unfold do_rx. rewrite Hs. cbn [negb].
-    destruct (find_mid mid (out s)) as [m|] eqn:Ef; [|intros _; apply Hsame; try reflexivity; repeat constructor].
-    pose proof (find_mid_In _ _ _ Ef) as [Hin Hmid]. subst mid.
-    apply andb_true_iff in Hconf as [Hck Hconf]. apply andb_true_iff in Hconf as [Hconf _].
-    apply andb_true_iff in Hconf as [_ Hst].
-    assert (Hw : is_wait m = true) by (unfold is_wait; destruct (o_st m); try discriminate; reflexivity).
-    pose proof (win_on_publish s m (IPubcomp (o_mid m)) k I Hs Hck Hin Hw HR) as H.
-    destruct (do_on_publish c s m) as [s' ev]. cbn [fst snd] in *. exact H.
-  - (* PUBREL *)
-    unfold do_rx. rewrite Hs. cbn [negb]. unfold deliver.
-    destruct (in_find mid (inm s)) as [tag|].
-    + destruct (r && negb (c_suppress c)); [|destruct (c_manual c)]; intros _.
-      * apply Hsame; try reflexivity; repeat constructor.
-      * apply Hsame; try reflexivity; repeat constructor.
-      * apply (Hreply _ _ [Inp (IPubrel mid); CbMessage mid 2 tag]); try reflexivity; repeat constructor.
-    + destruct (c_manual c); intros _; [apply Hsame; try reflexivity; repeat constructor|].
-      apply (Hreply _ _ [Inp (IPubrel mid)]); try reflexivity; repeat constructor.
-  - (* PUBLISH *)
-    unfold do_rx. rewrite Hs. cbn [negb]. unfold deliver. destruct (q =? 0).
-    + destruct (r && negb (c_suppress c)); intros _; apply Hsame; try reflexivity; repeat constructor.
-    + destruct (q =? 1).
-      * destruct (r && negb (c_suppress c)); [|destruct (c_manual c)]; intros _.
-        -- apply Hsame; try reflexivity; repeat constructor.
-        -- apply Hsame; try reflexivity; repeat constructor.
-        -- apply (Hreply _ _ [Inp (IPublish q mid tag); CbMessage mid 1 tag]); try reflexivity; repeat constructor.
-      * intros _. pose proof (Hreply s (mkQ (PPubrec mid) false) [Inp (IPublish q mid tag)]
-                               eq_refl eq_refl eq_refl eq_refl eq_refl) as H.
-        destruct (send s (mkQ (PPubrec mid) false)) as [s2 ev2]. cbn [fst snd] in *.
-        eapply R12_mono; [apply H; repeat constructor|]. cbn [sock out with_inm]. intros Hx; split; [exact Hx | apply incl_refl].
-Qed.
-
-Lemma win_step s o k : Inv c s -> conf_op c s o = true -> R12 s k ->
-  R12 (fst (step c s o)) (fold_left (k12_ev sel (c_max c)) (snd (step c s o)) k).
-Proof.
-  intros I Hc HR. pose proof (inv_step c Hcfg s o I Hc) as I'.
-  pose proof (inv_qidle _ _ I) as Hi.
-  destruct o as [q|ok| |p r|mid q|b]; cbn [step] in *.
-  - apply win_publish; assumption.
-  - apply win_reconnect; assumption.
-  - destruct (sock s) eqn:Hs; cbn [fst snd]; [|exact HR].
-    apply (win_plain s); [repeat constructor | cbn [sock with_sock]; discriminate | exact HR].
-  - apply win_rx; assumption.
-  - (* ack(): a reply, nothing window-relevant *)
-    assert (Hsend : forall x, ptag (q_pkt x) = None -> written_evs x = [] ->
-              R12 (fst (send s x)) (fold_left (k12_ev sel (c_max c)) (snd (send s x)) k)).
-    { intros x Hx Hwx. apply (win_plain s); [| |exact HR].
-      - apply Forall_forall. intros e He. split; [exact (send_events_notag s x e Hi Hx He)|].
-        rewrite send_hand_all in He. cbn [snd] in He. destruct (can_write s).
-        + rewrite (Hi eq_refl), hand_all_can in He. cbn [flat_map flush_evs app] in He. rewrite Hwx in He.
-          cbn [app] in He. destruct He as [<-|[<-|[]]]; exact Logic.I.
-        + rewrite hand_all_blocked in He. cbn in He. destruct He as [<-|[]]. exact Logic.I.
-      - rewrite send_fst. cbn [sock out with_q]. intros H; split; [exact H | apply incl_refl]. }
-    unfold do_ack. destruct (c_manual c); [|exact HR].
-    destruct (q =? 1); [apply Hsend; reflexivity|]. destruct (q =? 2); [apply Hsend; reflexivity | exact HR].
-  - (* the transport blocks / accepts again *)
-    unfold do_block in *. destruct (sock s) eqn:Hs; [|exact HR]. destruct b; cbn [fst snd lw] in *.
-    + apply (win_plain s); [repeat constructor | cbn [sock out with_blocked]; intros H; split; [congruence | apply incl_refl] | exact HR].
-    + eapply win_on; [exact I' | exact Hs | apply incl_refl | | exact HR].
-      cbn [out with_q with_blocked]. intros e t [<-|He] Ht; [destruct Ht|].
-      destruct (flush_evs_tags _ _ e t He Ht) as (x & Hx & Ex).
-      exact (qpkt_ok_wt _ _ _ (proj1 (Forall_forall _ _) (inv_q _ _ I) x Hx) Ex).
-Qed.
-
-End C12.
-
-(* ================================================================ the queue bound *)
-(* tags of the QoS 0 PUBLISH packets waiting in the output queue: their on_publish comes when they are
-   written; they never coincide with the tag of a stored message *)
-Definition q0tag (x : qpkt) : list Z :=
-  match q_pkt x with PPublish _ qs _ t => if qs =? 0 then [t] else [] | _ => [] end.
-Definition q0tags (q : list qpkt) : list Z := flat_map q0tag q.
-Definition noq0 (x : qpkt) : Prop :=
-  match q_pkt x with PPublish _ qs _ _ => (qs =? 0) = false | _ => True end.
-
-Lemma noq0_written x : noq0 x -> written_evs x = [].
-Proof. unfold noq0, written_evs. destruct (q_pkt x); try reflexivity. intros ->. reflexivity. Qed.
-Lemma noq0_q0tag x : noq0 x -> q0tag x = [].
-Proof. unfold noq0, q0tag. destruct (q_pkt x); try reflexivity. intros ->. reflexivity. Qed.
-Lemma q0tags_app a b : q0tags (a ++ b) = q0tags a ++ q0tags b.
-Proof. unfold q0tags. apply flat_map_app. Qed.
-Lemma noq0_q0tags H : Forall noq0 H -> q0tags H = [].
-Proof. induction 1 as [|x H Hx _ IH]; [reflexivity|]. unfold q0tags in *. cbn [flat_map]. rewrite (noq0_q0tag x Hx), IH. reflexivity. Qed.
-
-Lemma qos_ok_nz m : qos_okb m = true -> (o_qos m =? 0) = false.
-Proof. unfold qos_okb. destruct (o_qos m =? 1) eqn:E1; [lia|]. intros H. lia. Qed.
-
-Lemma noq0_rel_pk m : qos_okb m = true -> noq0 (rel_pk m).
-Proof. intros H. unfold noq0, rel_pk, pub_pkt. cbn [q_pkt]. apply qos_ok_nz. exact H. Qed.
-Lemma noq0_cl_pk m : qos_okb m = true -> Forall noq0 (cl_pk m).
-Proof.
-  intros H. unfold cl_pk. destruct (o_st m); try constructor.
-  - unfold noq0, pub_pkt. cbn [q_pkt]. apply qos_ok_nz. exact H.
-  - constructor.
-  - destruct (o_qos m =? 2); repeat constructor.
-Qed.
-
-Section Queue.
-Variable c : cfg.
-Hypothesis Hcfg : cfg_ok c = true.
-
-Definition qev := k12q_ev (c_maxq c).
-
-Lemma flush_q cn : forall q k, (forall t, In t (q0tags q) -> ~ In t (kq_live k)) ->
-  fold_left qev (flush_evs cn q) k = k.
-Proof.
-  induction q as [|x q IH]; intros k H; [reflexivity|]. cbn [flush_evs fold_left].
-  change (qev k (Tx cn (q_pkt x))) with k. rewrite fold_left_app.
-  assert (E : fold_left qev (written_evs x) k = k).
-  { unfold written_evs. destruct (q_pkt x) as [|m qs d t| | | |] eqn:Ex; try reflexivity.
-    destruct (qs =? 0) eqn:E0; [|reflexivity]. cbn [fold_left qev k12q_ev].
-    rewrite zrem_notin; [destruct k; reflexivity|]. apply H. unfold q0tags. cbn [flat_map]. unfold q0tag at 1.
-    rewrite Ex, E0. left. reflexivity. }
-  rewrite E. apply IH. intros t Ht. apply H. unfold q0tags in *. cbn [flat_map]. apply in_or_app. right. exact Ht.
-Qed.
-
-Lemma hand_all_q cn can q H k : (can = true -> q = []) -> Forall noq0 H ->
-  fold_left qev (snd (hand_all cn can q H)) k = k.
-Proof.
-  intros Hq HH. destruct can.
-  - rewrite (Hq eq_refl), hand_all_can. cbn [snd]. induction HH as [|x H Hx _ IH]; [reflexivity|].
-    cbn [flat_map flush_evs]. rewrite (noq0_written x Hx). cbn [app fold_left]. exact IH.
-  - rewrite hand_all_blocked. cbn [snd]. clear Hq HH. induction H as [|x H IH]; [reflexivity|]. cbn [map fold_left]. exact IH.
-Qed.
-
-Lemma hand_all_q0 cn can q H : (can = true -> q = []) -> Forall noq0 H ->
-  forall t, In t (q0tags (fst (hand_all cn can q H))) -> In t (q0tags q).
-Proof.
-  intros Hq HH t. rewrite (hand_all_fst _ _ _ _ Hq). destruct can; [intros []|].
-  rewrite q0tags_app, (noq0_q0tags H HH), app_nil_r. exact (fun x => x).
-Qed.
-
-Lemma send_q s x k : (can_write s = true -> outq s = []) -> noq0 x -> fold_left qev (snd (send s x)) k = k.
-Proof. intros Hi Hx. rewrite send_hand_all. cbn [snd]. apply hand_all_q; [exact Hi | repeat constructor; exact Hx]. Qed.
-
-Lemma send_q0 s x : (can_write s = true -> outq s = []) -> noq0 x ->
-  forall t, In t (q0tags (outq (fst (send s x)))) -> In t (q0tags (outq s)).
-Proof.
-  intros Hi Hx t. rewrite send_hand_all. cbn [fst outq with_q]. apply hand_all_q0; [exact Hi | repeat constructor; exact Hx].
-Qed.
-
-Lemma tags_reset cl : forall l infl, tags (fst (reset_out_list c cl infl l)) = tags l.
-Proof.
-  induction l as [|m l IH]; intros infl; cbn [reset_out_list]; [reflexivity|].
-  destruct (window_free c infl).
-  - specialize (IH (infl + 1)). destruct (reset_out_list c cl (infl + 1) l) as [r n].
-    cbn [fst] in *. unfold tags in *. cbn [map]. rewrite reset1_tag, IH. reflexivity.
-  - specialize (IH infl). destruct (reset_out_list c cl infl l) as [r n].
-    cbn [fst] in *. unfold tags in *. cbn [map set_st o_tag]. rewrite IH. reflexivity.
-Qed.
-
-Lemma tags_update_mid mid st : forall l, tags (update_mid mid (fun m => set_st m st) l) = tags l.
-Proof.
-  induction l as [|x l IH]; cbn [update_mid]; [reflexivity|].
-  destruct (o_mid x =? mid); unfold tags in *; cbn [map set_st o_tag]; [reflexivity | rewrite IH; reflexivity].
-Qed.
-
-Definition Q0 (s : sess) : Prop := forall t, In t (q0tags (outq s)) -> t < ntag s /\ ~ In t (tags (out s)).
-Definition Rq (s : sess) (k : k12q) : Prop := kq_ok k = true /\ kq_live k = tags (out s) /\ Q0 s.
-
-Lemma Rq_ext s s' k : out s' = out s -> ntag s' = ntag s -> (forall t, In t (q0tags (outq s')) -> In t (q0tags (outq s))) ->
-  Rq s k -> Rq s' k.
-Proof.
-  intros E1 E2 E3 (Hok & Hl & Hq). split; [exact Hok|]. split; [rewrite E1; exact Hl|].
-  intros t Ht. rewrite E1, E2. apply Hq. apply E3. exact Ht.
-Qed.
-
-Lemma q_publish s q k : Inv c s -> Rq s k ->
-  Rq (fst (do_publish c s q)) (fold_left qev (snd (do_publish c s q)) k).
-Proof.
-  intros I (Hok & Hlive & Hq0). pose proof (inv_qidle _ _ I) as Hi.
-  assert (Hfull : (c_maxq c >? 0) && (zlen (kq_live k) >=? c_maxq c) =
-                  (c_maxq c >? 0) && (Z.of_nat (length (out s)) >=? c_maxq c)).
-  { unfold zlen. rewrite Hlive. unfold tags. rewrite map_length. reflexivity. }
-  assert (Hlt : forall t, In t (tags (out s)) -> t < ntag s).
-  { intros t Hin. unfold tags in Hin. apply in_map_iff in Hin as (m & <- & Hin).
-    pose proof (proj1 (Forall_forall _ _) (inv_tags _ _ I) m Hin) as H. cbn beta in H. lia. }
-  assert (Hfresh : ~ In (ntag s) (tags (out s))) by (intros H; apply Hlt in H; lia).
-  (* the Q0 part when the stored messages grow by the fresh tag and the queue does not grow by a QoS 0 packet *)
-  assert (HQ0 : forall s', ntag s' = ntag s + 1 -> (forall t, In t (tags (out s')) -> In t (tags (out s)) \/ t = ntag s) ->
-            (forall t, In t (q0tags (outq s')) -> In t (q0tags (outq s))) -> Q0 s').
-  { intros s' E1 E2 E3 t Ht. destruct (Hq0 t (E3 t Ht)) as [H1 H2]. split; [lia|].
-    intros H. destruct (E2 t H) as [H3|H3]; [exact (H2 H3) | lia]. }
-  unfold do_publish. cbv zeta. destruct (q =? 0) eqn:Eq0.
-  { destruct (sock s) eqn:Hs.
-    - set (s1 := mkS _ _ _ _ _ _ _ _ _ _ _). set (x := mkQ _ _).
-      assert (Hi1 : can_write s1 = true -> outq s1 = []) by (apply (idle_ext s); [cbn; congruence | reflexivity | reflexivity | exact Hi]).
-      rewrite (send_hand_all s1 x). cbn [fst snd]. rewrite fold_left_app. cbn [fold_left qev k12q_ev]. rewrite Eq0.
-      assert (E : fold_left qev (snd (hand_all (conn s1) (can_write s1) (outq s1) [x])) k = k).
-      { destruct (can_write s1) eqn:Ec.
-        - rewrite (Hi1 eq_refl), hand_all_can. cbn [snd flat_map flush_evs app written_evs x q_pkt fold_left qev k12q_ev].
-          change (0 =? 0) with true. cbv iota. cbn [app fold_left qev k12q_ev].
-          rewrite Hlive, zrem_notin by exact Hfresh. rewrite <- Hlive. destruct k; reflexivity.
-        - rewrite hand_all_blocked. reflexivity. }
-      rewrite E. split; [exact Hok|]. split; [exact Hlive|].
-      intros t Ht. cbn [outq with_q out ntag s1] in *. rewrite (hand_all_fst _ _ _ _ Hi1) in Ht.
-      destruct (can_write s1); [destruct Ht|]. rewrite q0tags_app in Ht. apply in_app_or in Ht as [Ht|Ht].
-      + destruct (Hq0 t Ht). split; [lia | assumption].
-      + cbn in Ht. destruct Ht as [<-|[]]. split; [lia | exact Hfresh].
-    - cbn [fst snd fold_left qev k12q_ev]. rewrite Eq0. split; [exact Hok|]. split; [exact Hlive|].
-      intros t Ht. destruct (Hq0 t Ht). cbn [ntag out]. split; [lia | assumption]. }
-  destruct ((c_maxq c >? 0) && (Z.of_nat (length (out s)) >=? c_maxq c)) eqn:Efull.
-  { cbn [fst snd fold_left qev k12q_ev]. rewrite Eq0, Hfull.
-    split; cbn [kq_ok kq_live out]; [rewrite Hok; reflexivity|]. split; [assumption|].
-    intros t Ht. destruct (Hq0 t Ht). cbn [ntag out]. split; [lia | assumption]. }
-  destruct (has_mid (mid_next (last_mid s)) (out s)).
-  { cbn [fst snd fold_left qev k12q_ev]. rewrite Eq0, Hfull.
-    change (15 =? 15) with true. split; cbn [kq_ok kq_live out]; [assumption|]. split; [assumption|].
-    intros t Ht. destruct (Hq0 t Ht). cbn [ntag out]. split; [lia | assumption]. }
-  assert (Htags : forall st t, In t (tags (out s ++ [mkO (mid_next (last_mid s)) q st false (ntag s)])) -> In t (tags (out s)) \/ t = ntag s).
-  { intros st t. rewrite tags_app. intros H. apply in_app_or in H as [H|[H|[]]]; [left; exact H | right; symmetry; exact H]. }
-  destruct (window_free c (inflight s)); [destruct (sock s) eqn:Hs|].
-  - set (s1 := with_out _ _ _). set (x := mkQ _ _).
-    assert (Hi1 : can_write s1 = true -> outq s1 = []) by (apply (idle_ext s); [cbn; congruence | reflexivity | reflexivity | exact Hi]).
-    assert (Hx : noq0 x) by exact Eq0.
-    pose proof (send_q s1 x k Hi1 Hx) as E. pose proof (send_q0 s1 x Hi1 Hx) as E0. pose proof (send_fst s1 x) as Ef.
-    destruct (send s1 x) as [s2 ev]. cbn [fst snd] in *. rewrite fold_left_app, E. cbn [fold_left qev k12q_ev].
-    rewrite Eq0, Hfull. change (0 =? 15) with false. cbv iota.
-    split; [exact Hok|]. rewrite Ef. cbn [out with_q with_out s1 kq_live]. split; [rewrite tags_app, Hlive; reflexivity|].
-    rewrite <- Ef. apply HQ0; [rewrite Ef; reflexivity | rewrite Ef; apply Htags | exact E0].
-  - cbn [fst snd fold_left qev k12q_ev]. rewrite Eq0, Hfull. change (4 =? 15) with false. cbv iota.
-    split; [exact Hok|]. cbn [out with_out kq_live]. split; [rewrite tags_app, Hlive; reflexivity|].
-    apply HQ0; [reflexivity | apply Htags | exact (fun t H => H)].
-  - cbn [fst snd fold_left qev k12q_ev]. rewrite Eq0, Hfull. change (0 =? 15) with false. cbv iota.
-    split; [exact Hok|]. cbn [out with_out kq_live]. split; [rewrite tags_app, Hlive; reflexivity|].
-    apply HQ0; [reflexivity | apply Htags | exact (fun t H => H)].
-Qed.
-
-Lemma lost_q : forall q k, fold_left qev (flat_map lost_evs q) k = k.
-Proof.
-  induction q as [|x q IH]; intros k; [reflexivity|]. cbn [flat_map]. rewrite fold_left_app, IH.
-  unfold lost_evs. destruct (q_pkt x) as [|m qs d t| | | |]; try reflexivity.
-  destruct ((qs =? 0) && q_info x); reflexivity.
-Qed.
-
-Lemma q_reconnect s ok k : Rq s k ->
-  Rq (fst (do_reconnect c s ok)) (fold_left qev (snd (do_reconnect c s ok)) k).
-Proof.
-  intros (Hok & Hlive & Hq0). unfold do_reconnect.
-  pose proof (tags_reset (clean_now c s) (out s) 0) as Ht.
-  destruct (reset_out_list c (clean_now c s) 0 (out s)) as [o n]. cbn [fst] in Ht.
-  destruct ok; cbn [fst snd]; rewrite fold_cons, fold_left_app, lost_q; cbn [fold_left qev k12q_ev];
-    (split; [assumption|]; split; [cbn [out]; rewrite Ht; assumption | intros t []]).
-Qed.
-
-Lemma q_on_publish s m p k : Inv c s -> sock s = true -> cack s = true -> In m (out s) -> is_wait m = true ->
-  Rq s k ->
-  Rq (fst (do_on_publish c s m)) (fold_left qev (Inp p :: snd (do_on_publish c s m)) k).
-Proof.
-  intros I Hs Hck Hin Hw (Hok & Hlive & Hq0).
-  destruct (on_publish_char c Hcfg s m (inv_m _ _ I) Hs Hck Hin Hw)
-    as (C1 & C2 & Q & j & n & So & Se' & SQ & Hj & Hn & Hle & Hfull & E).
-  rewrite E. cbn [fst snd]. clear E.
-  assert (HH : Forall noq0 (map rel_pk (firstn j Q))).
-  { apply Forall_map. apply Forall_forall. intros x Hx. apply noq0_rel_pk.
-    apply (proj1 (Forall_forall _ _) (inv_qos _ _ I)). rewrite So. apply in_or_app. right.
-    rewrite <- (firstn_skipn j Q). apply in_or_app. left. exact Hx. }
-  rewrite !fold_cons. cbn [qev k12q_ev]. fold qev. rewrite (hand_all_q _ _ _ _ _ (inv_qidle _ _ I) HH).
-  pose proof (SSorted_NoDup _ (inv_sorted _ _ I)) as Hnd. rewrite So in Hnd.
-  assert (Htags : tags ((C1 ++ C2) ++ map rel1 (firstn j Q) ++ skipn j Q) = zrem (o_tag m) (tags (out s))).
-  { rewrite So. rewrite !tags_app. rewrite (map_ext_tag rel1) by (intros; apply rel1_tag).
-    rewrite <- (tags_app (firstn j Q)), firstn_skipn. cbn [tags map].
-    rewrite !tags_app in Hnd. cbn [tags map] in Hnd. fold (tags C2) in *. fold (tags C1) in *.
-    rewrite <- !app_assoc in *. cbn [app] in *. fold (tags Q) in *.
-    pose proof (NoDup_remove_2 _ _ _ Hnd) as H. symmetry. apply zrem_mid.
-    - intros H1. apply H. apply in_or_app. left. assumption.
-    - intros H1. apply H. apply in_or_app. right. assumption. }
-  split; [exact Hok|]. cbn [out with_q with_out kq_live outq ntag]. split; [rewrite Htags, Hlive; reflexivity|].
-  unfold Q0. cbn [out with_q with_out outq ntag].
-  intros t Ht. apply (hand_all_q0 _ _ _ _ (inv_qidle _ _ I) HH) in Ht. destruct (Hq0 t Ht) as [H1 H2].
-  split; [exact H1|]. rewrite Htags. intros H. apply zrem_In in H. tauto.
-Qed.
-
-Lemma q_rx s p r k : Inv c s -> conf_op c s (ORx p r) = true -> Rq s k ->
-  Rq (fst (do_rx c s p r)) (fold_left qev (snd (do_rx c s p r)) k).
-Proof.
-  intros I Hconf HR. cbn [conf_op] in Hconf. pose proof (inv_qidle _ _ I) as Hi.
-  destruct (sock s) eqn:Hs; cbn [negb] in *; [|unfold do_rx; rewrite Hs; cbn [negb fst snd fold_left]; exact HR].
-  assert (Hreply : forall s1 x pre, out s1 = out s -> ntag s1 = ntag s -> outq s1 = outq s -> can_write s1 = can_write s ->
-            noq0 x -> fold_left qev pre k = k ->
-            Rq (fst (let (s2, ev2) := send s1 x in (s2, pre ++ ev2)))
-               (fold_left qev (snd (let (s2, ev2) := send s1 x in (s2, pre ++ ev2))) k)).
-  { intros s1 x pre E1 E2 E3 E4 Hx Hpre.
-    assert (Hi1 : can_write s1 = true -> outq s1 = []) by (rewrite E3, E4; exact Hi).
-    pose proof (send_q s1 x k Hi1 Hx) as E. pose proof (send_q0 s1 x Hi1 Hx) as E0. pose proof (send_fst s1 x) as Ef.
-    destruct (send s1 x) as [s2 ev]. cbn [fst snd] in *. rewrite fold_left_app, Hpre, E.
-    apply (Rq_ext s); [rewrite Ef; exact E1 | rewrite Ef; exact E2 | rewrite <- E3; exact E0 | exact HR]. }
-  destruct p as [rc|mid|mid|mid|mid|q mid tag].
-  - (* CONNACK *)
-    destruct (rc =? 0) eqn:Erc.
-    + assert (rc = 0) by lia. subst rc.
-      destruct (connack_char c s r I Hs) as (C & Q & So & Sh & E). rewrite E. cbn [fst snd]. clear E.
-      assert (HH : Forall noq0 (flat_map cl_pk C)).
-      { apply Forall_flat_map. apply Forall_forall. intros x Hx. apply noq0_cl_pk.
-        apply (proj1 (Forall_forall _ _) (inv_qos _ _ I)). rewrite So. apply in_or_app. left. exact Hx. }
-      rewrite fold_cons. change (qev k (Inp (IConnack 0))) with k. rewrite (hand_all_q _ _ _ _ _ Hi HH).
-      destruct HR as (Hok & Hlive & Hq0).
-      assert (Ht : tags (map cl1 C ++ Q) = tags (out s)).
-      { rewrite So, !tags_app. rewrite map_ext_tag by apply cl1_tag. reflexivity. }
-      split; [exact Hok|]. cbn [out with_q with_out outq ntag]. split; [rewrite Ht; exact Hlive|].
-      unfold Q0. cbn [out with_q with_out outq ntag connack_s1].
-      intros t Hin. apply (hand_all_q0 _ _ _ _ Hi HH) in Hin. rewrite Ht. exact (Hq0 t Hin).
-    + unfold do_rx. rewrite Hs. cbn [negb]. rewrite Erc. cbn [fst snd fold_left qev k12q_ev].
-      apply (Rq_ext s); [reflexivity | reflexivity | exact (fun t H => H) | exact HR].
-  - (* PUBACK *)
-    unfold do_rx. rewrite Hs. cbn [negb].
-    destruct (find_mid mid (out s)) as [m|] eqn:Ef; [|exact HR].
-    pose proof (find_mid_In _ _ _ Ef) as [Hin Hmid]. subst mid.
-    apply andb_true_iff in Hconf as [Hck Hconf]. apply andb_true_iff in Hconf as [Hconf _].
-    apply andb_true_iff in Hconf as [_ Hst].
-    assert (Hw : is_wait m = true) by (unfold is_wait; destruct (o_st m); try discriminate; reflexivity).
-    pose proof (q_on_publish s m (IPuback (o_mid m)) k I Hs Hck Hin Hw HR) as H.
-    destruct (do_on_publish c s m) as [s' ev]. cbn [fst snd] in *. exact H.
-  - (* PUBREC *)
-    unfold do_rx. rewrite Hs. cbn [negb].
-    destruct (find_mid mid (out s)) as [m|] eqn:Ef; [|exact HR].
-    set (s1 := with_out s _ _). set (x := mkQ _ _).
-    assert (Hx : noq0 x) by exact Logic.I.
-    pose proof (send_q s1 x k Hi Hx) as E. pose proof (send_q0 s1 x Hi Hx) as E0. pose proof (send_fst s1 x) as Efs.
-    destruct (send s1 x) as [s2 ev]. cbn [fst snd] in *. rewrite fold_cons. change (qev k (Inp (IPubrec mid))) with k. rewrite E.
-    destruct HR as (Hok & Hlive & Hq0). split; [exact Hok|]. rewrite Efs. cbn [out with_q with_out s1 ntag].
-    split; [rewrite tags_update_mid; exact Hlive|].
-    unfold Q0. cbn [out with_q with_out outq ntag].
-    intros t Ht. assert (Ht' : In t (q0tags (outq s))) by (apply E0; rewrite Efs; exact Ht).
-    destruct (Hq0 t Ht') as [H1 H2]. split; [exact H1|]. unfold s1. cbn [out with_out]. rewrite tags_update_mid. exact H2.
-  - (* PUBCOMP *)
-    unfold do_rx. rewrite Hs. cbn [negb].
-    destruct (find_mid mid (out s)) as [m|] eqn:Ef; [|exact HR].
-    pose proof (find_mid_In _ _ _ Ef) as [Hin Hmid]. subst mid.
-    apply andb_true_iff in Hconf as [Hck Hconf]. apply andb_true_iff in Hconf as [Hconf _].
-    apply andb_true_iff in Hconf as [_ Hst].
-    assert (Hw : is_wait m = true) by (unfold is_wait; destruct (o_st m); try discriminate; reflexivity).
-    pose proof (q_on_publish s m (IPubcomp (o_mid m)) k I Hs Hck Hin Hw HR) as H.
-    destruct (do_on_publish c s m) as [s' ev]. cbn [fst snd] in *. exact H.
-  - (* PUBREL *)
-    unfold do_rx. rewrite Hs. cbn [negb]. unfold deliver.
-    destruct (in_find mid (inm s)) as [tag|].
-    + destruct (r && negb (c_suppress c)); [|destruct (c_manual c)]; cbn [fst snd].
-      * apply (Rq_ext s); [reflexivity | reflexivity | exact (fun t H => H) | exact HR].
-      * apply (Rq_ext s); [reflexivity | reflexivity | exact (fun t H => H) | exact HR].
-      * apply (Hreply _ _ [Inp (IPubrel mid); CbMessage mid 2 tag]); try reflexivity; try exact Logic.I.
-    + destruct (c_manual c); [exact HR|].
-      apply (Hreply _ _ [Inp (IPubrel mid)]); try reflexivity; try exact Logic.I.
-  - (* PUBLISH *)
-    unfold do_rx. rewrite Hs. cbn [negb]. unfold deliver. destruct (q =? 0).
-    + destruct (r && negb (c_suppress c)); exact HR.
-    + destruct (q =? 1).
-      * destruct (r && negb (c_suppress c)); [|destruct (c_manual c)]; try exact HR.
-        apply (Hreply _ _ [Inp (IPublish q mid tag); CbMessage mid 1 tag]); try reflexivity; try exact Logic.I.
-      * pose proof (Hreply s (mkQ (PPubrec mid) false) [Inp (IPublish q mid tag)]
-                      eq_refl eq_refl eq_refl eq_refl Logic.I eq_refl) as H.
-        destruct (send s (mkQ (PPubrec mid) false)) as [s2 ev2]. cbn [fst snd] in *.
-        eapply Rq_ext; [| | |exact H]; try reflexivity. exact (fun t H => H).
-Qed.
-
-Lemma q_step s o k : Inv c s -> conf_op c s o = true -> Rq s k ->
-  Rq (fst (step c s o)) (fold_left qev (snd (step c s o)) k).
-Proof.
-  intros I Hc HR. pose proof (inv_qidle _ _ I) as Hi. destruct o as [q|ok| |p r|mid q|b]; cbn [step].
-  - apply q_publish; assumption.
-  - apply q_reconnect; assumption.
-  - destruct (sock s); cbn [fst snd fold_left qev k12q_ev]; [|exact HR].
-    apply (Rq_ext s); [reflexivity | reflexivity | exact (fun t H => H) | exact HR].
-  - apply q_rx; assumption.
-  - assert (Hsend : forall x, noq0 x -> Rq (fst (send s x)) (fold_left qev (snd (send s x)) k)).
-    { intros x Hx. rewrite (send_q s x k Hi Hx).
-      apply (Rq_ext s); [rewrite send_fst; reflexivity | rewrite send_fst; reflexivity | apply send_q0; assumption | exact HR]. }
-    unfold do_ack. destruct (c_manual c); [|exact HR].
-    destruct (q =? 1); [apply Hsend; exact Logic.I|]. destruct (q =? 2); [apply Hsend; exact Logic.I | exact HR].
-  - unfold do_block. destruct (sock s); [|exact HR]. destruct b; cbn [fst snd lw].
-    + apply (Rq_ext s); [reflexivity | reflexivity | exact (fun t H => H) | exact HR].
-    + rewrite fold_cons. change (qev k (Blk false)) with k. destruct HR as (Hok & Hlive & Hq0).
-      rewrite flush_q by (intros t Ht; rewrite Hlive; exact (proj2 (Hq0 t Ht))).
-      split; [exact Hok|]. split; [exact Hlive|]. intros t [].
-Qed.
-
-End Queue.
-
-(* ================================================================ lifting over a history *)
-Section Lift.
-Variable c : cfg.
-Hypothesis Hcfg : cfg_ok c = true.
-Variables (K : Type) (ev : K -> event -> K) (R : sess -> K -> Prop).
-Hypothesis Hstep : forall s o k, Inv c s -> conf_op c s o = true -> R s k ->
-  R (fst (step c s o)) (fold_left ev (snd (step c s o)) k).
-
-Lemma lift : forall ops s k, Inv c s -> conforming_from c s ops = true -> R s k ->
-  exists s', R s' (fold_left (fun k0 evs => fold_left ev evs k0) (map snd (run_steps c s ops)) k).
-Proof.
-  induction ops as [|o ops IH]; intros s k I Hc HR; cbn [run_steps conforming_from] in *.
-  - exists s. exact HR.
-  - apply andb_true_iff in Hc as [Hc1 Hc2].
-    pose proof (inv_step c Hcfg s o I Hc1) as I'. pose proof (Hstep s o k I Hc1 HR) as HR'.
-    destruct (step c s o) as [s1 e1]. cbn [fst snd map fold_left] in *.
-    exact (IH s1 _ I' Hc2 HR').
-Qed.
-End Lift.
-
-Lemma c12_gen_cfg c sel : cfg_ok c = true -> view_ok sel -> forall ops,
-  conforming c ops = true -> c12_gen_ok sel c (optrace c ops) = true.
-Proof.
-  intros Hcfg Hsel ops Hc. unfold c12_gen_ok, optrace.
-  destruct (lift c Hcfg k12 (k12_ev sel (c_max c)) R12 (win_step c Hcfg sel Hsel) ops (init c) k12_init (inv_init c) Hc) as (s' & H & _).
+  intros Hcfg Hsel ops Hc Hn. unfold c12_gen_ok, optrace.
+  destruct (lift_calm c (LInv.Inv c) (LInv.inv_step c Hcfg) k12 (fun k evs => fold_left (k12_ev sel (c_max c)) evs k) R12
+              (win_step c Hcfg sel Hsel) ops (init c) k12_init (LInv.inv_init c) eq_refl Hn Hc) as (s' & H & _).
   - split; [reflexivity|]. split; [constructor|]. intros _. apply incl_nil_l.
   - exact H.
 Qed.
 
-(* ================================================================ the theorems *)
-Theorem c12_window_proved : C12_window_stmt.
-Proof. intros c ops Hcfg Hc. apply c12_gen_cfg; [assumption | exact view_tx | assumption]. Qed.
+Theorem c12_window_calm_proved : C12_window_calm_stmt.
+Proof. intros c ops Hcfg Hc Hn. apply c12_gen_calm; [assumption | exact view_tx | assumption | assumption]. Qed.
 
-Theorem c12_handed_proved : C12_handed_stmt.
-Proof. intros c ops Hcfg Hc. apply c12_gen_cfg; [assumption | exact view_handed | assumption]. Qed.
+Theorem c12_handed_calm_proved : C12_handed_calm_stmt.
+Proof. intros c ops Hcfg Hc Hn. apply c12_gen_calm; [assumption | exact view_handed | assumption | assumption]. Qed.
 
-Theorem c12_queue_proved : C12_queue_stmt.
+Theorem c12_queue_calm_proved : C12_queue_calm_stmt.
 Proof.
-  intros c ops Hcfg Hc. unfold c12_queue_ok, optrace.
-  destruct (lift c Hcfg k12q (qev c) Rq (q_step c Hcfg) ops (init c) (mkK12q [] true) (inv_init c) Hc) as (s' & H & _).
+  intros c ops Hcfg Hc Hn. unfold c12_queue_ok, optrace.
+  destruct (lift_calm c (LInv.Inv c) (LInv.inv_step c Hcfg) k12q (fun k evs => fold_left (qev c) evs k) Rq
+              (q_step c Hcfg) ops (init c) (mkK12q [] true) (LInv.inv_init c) eq_refl Hn Hc) as (s' & H & _).
   - split; [reflexivity|]. split; [reflexivity|]. intros t [].
   - exact H.
 Qed.
 
 (* On an established connection no accepted message waits while a window slot is free:
    every stored message has been handed over and awaits its acknowledgement, or it is
-   queued and the window is exactly full. *)
+   queued and the window is exactly full.  EVERY conforming history, hard write failures included. *)
 Theorem c12_no_idle_slot c s : Inv c s -> cack s = true ->
   Forall (fun m => is_wait m = true \/
                    (is_queued m = true /\ inflight s = c_max c /\ 0 < c_max c)) (out s).
@@ -951,7 +58,17 @@ Proof.
   apply inv_reachable; assumption.
 Qed.
 
-Print Assumptions c12_window_proved.
-Print Assumptions c12_handed_proved.
-Print Assumptions c12_queue_proved.
+(* the counter never exceeds the window, and counts exactly the messages in the window part of the store *)
+Theorem c12_counter_bounded c ops : cfg_ok c = true -> conforming c ops = true ->
+  let s := fst (run c ops) in 0 < c_max c -> 0 <= inflight s <= c_max c.
+Proof.
+  intros Hcfg Hc s Hpos. pose proof (inv_reachable c Hcfg ops Hc) as I.
+  destruct (inv_shape _ _ I) as (C & U & Q & [So Si SC SU SQ Sm Sf Ss Se]). fold s in Si, Sm.
+  specialize (Sm Hpos). lia.
+Qed.
+
+Print Assumptions c12_window_calm_proved.
+Print Assumptions c12_handed_calm_proved.
+Print Assumptions c12_queue_calm_proved.
 Print Assumptions c12_no_idle_slot_reachable.
+Print Assumptions c12_counter_bounded.
